@@ -97,7 +97,68 @@ fn build_vm(w: &Value) -> Result<RootedThread, Violation> {
 
 /// One operation on `thread`; `wait` turns a future into its output (solo: simple poll loop,
 /// concurrent: the scheduler's block_on)
-fn perform(thread: &RootedThread, op: &Value, id: &str, concurrent: bool) -> String {
+type Val = gluon::vm::thread::RootedValue<RootedThread>;
+
+/// The two ends of the channel created by the root thread
+struct Chan {
+    sender: Val,
+    receiver: Val,
+}
+
+fn make_channel(vm: &RootedThread) -> Result<Chan, Violation> {
+    let src = "let ch = import! std.channel.prim\nch.channel [0]\n";
+    let record = match exec::drive(vm.run_expr_async::<OpaqueValue<RootedThread, Hole>>("mkchan", src), 10_000_000, |_| {}) {
+        exec::Outcome::Ready(Ok((v, _)), _) => v,
+        exec::Outcome::Ready(Err(e), _) => return Err(Violation::new("harness", format!("channel creation failed: {}", e))),
+        _ => return Err(Violation::new("harness", "channel creation did not complete")),
+    };
+    let field = |name: &str| -> Result<Val, Violation> {
+        match record.get_variant().as_ref() {
+            gluon::vm::api::ValueRef::Data(data) => data
+                .lookup_field(vm, name)
+                .map(|v| vm.root_value(v))
+                .ok_or_else(|| Violation::new("harness", format!("channel record has no field {}", name))),
+            _ => Err(Violation::new("harness", "channel record is not a record")),
+        }
+    };
+    Ok(Chan { sender: field("sender")?, receiver: field("receiver")? })
+}
+
+/// Calls `src` (a function of one argument returning an IO action) with `arg` on `thread`
+fn call_io(thread: &RootedThread, name: &str, src: &str, arg: &Val, concurrent: bool) -> String {
+    use gluon::vm::api::{Getable, OwnedFunction, IO};
+    macro_rules! wait {
+        ($fut:expr) => {{
+            let fut = $fut;
+            if concurrent {
+                Some(sched::block_on(fut))
+            } else {
+                match exec::drive(fut, 10_000_000, |_| {}) {
+                    exec::Outcome::Ready(v, _) => Some(v),
+                    _ => None,
+                }
+            }
+        }};
+    }
+    let f = match wait!(thread.run_expr_async::<OpaqueValue<RootedThread, Hole>>(name, src)) {
+        Some(Ok((f, _))) => f,
+        Some(Err(e)) => return classify(&e),
+        None => return "HANG".to_string(),
+    };
+    let mut f: OwnedFunction<fn(OpaqueValue<RootedThread, Hole>) -> IO<OpaqueValue<RootedThread, Hole>>> =
+        Getable::from_value(thread, f.get_variant());
+    let out = wait!(f.call_async(OpaqueValue::from_value(arg.clone())));
+    match out {
+        Some(Ok(IO::Value(v))) => format!("OK {}", render::render(v.get_variant())),
+        Some(Ok(IO::Exception(e))) => format!("ERR io {}", e),
+        Some(Err(e)) => format!("ERR call {}", e.to_string().lines().next().unwrap_or("")),
+        None => "HANG".to_string(),
+    }
+}
+
+const RECV_SRC: &str = "let ch = import! std.channel.prim\n\\r -> ch.recv r\n";
+
+fn perform(thread: &RootedThread, op: &Value, id: &str, concurrent: bool, chan: Option<&Chan>) -> String {
     let kind = op["op"].as_str().unwrap_or("");
     let src = op["src"].as_str().unwrap_or("0");
     macro_rules! wait {
@@ -142,6 +203,23 @@ fn perform(thread: &RootedThread, op: &Value, id: &str, concurrent: bool) -> Str
             thread.collect();
             "collected".to_string()
         }
+        "send" => {
+            let Some(chan) = chan else { return "nop".to_string() };
+            let mut out = Vec::new();
+            for (j, v) in op["vals"].as_array().map(|a| &a[..]).unwrap_or(&[]).iter().enumerate() {
+                let src = format!("let ch = import! std.channel.prim\n\\s -> ch.send s {}\n", v);
+                out.push(call_io(thread, &format!("s_{}_{}", id, j), &src, &chan.sender, concurrent));
+            }
+            format!("SEND {}", out.join(" | "))
+        }
+        "recv" => {
+            let Some(chan) = chan else { return "nop".to_string() };
+            let mut out = Vec::new();
+            for j in 0..op["n"].as_u64().unwrap_or(1) {
+                out.push(call_io(thread, &format!("r_{}_{}", id, j), RECV_SRC, &chan.receiver, concurrent));
+            }
+            format!("RECV {}", out.join(" | "))
+        }
         "global" => {
             let name = op["name"].as_str().unwrap_or("p0");
             match thread.get_global::<OpaqueValue<RootedThread, Hole>>(name) {
@@ -160,7 +238,7 @@ impl Engine for C14 {
 
     fn info(&self) -> EngineInfo {
         EngineInfo {
-            rule: "one run = one VM built with the simulator's spawner (every import task becomes a logical thread), a pool of 3-8 inline modules with a random import DAG (bodies tick the harness counter, some allocate), and 2-6 logical threads (real OS threads under the token-passing scheduler), each owning a sibling gluon thread (or the root thread) and performing 1-3 operations: run_expr_async of a program importing an overlapping subset, load_script_async of a new module, typecheck_str_async, an allocation burst (generated program), an explicit collect (the root collecting locks and marks every child), get_global of a pool module. Scheduling points: every instrumented lock acquisition (context, child_threads, global gc, import compiler mutex) with try_lock probing, every k-th CALL debug-hook event inside running bytecode (while the context lock is held), every Pending of a logical thread, every spawn; forced collections in addition. Oracles: each operation's outcome equals the outcome of the same operation executed alone on a fresh VM; every module body ticks at most once; no logical thread panics; no freed object is dereferenced or reachable at quiescence; a state where no logical thread can run is a deadlock (exact under token passing). Non-trivial = at least 10 context switches and at least two threads importing a common module; distinct = distinct hash of the context switch sequence.",
+            rule: "one run = one VM built with the simulator's spawner (every import task becomes a logical thread), a pool of 3-8 inline modules with a random import DAG (bodies tick the harness counter, some allocate), and 2-6 logical threads (real OS threads under the token-passing scheduler), each owning a sibling gluon thread (or the root thread) and performing 1-3 operations: run_expr_async of a program importing an overlapping subset, load_script_async of a new module, typecheck_str_async, an allocation burst (generated program), an explicit collect (the root collecting locks and marks every child), get_global of a pool module; in half of the runs also channel traffic: one channel created by the root thread whose two ends are handed (as host handles pushed as function arguments) to every logical thread, which send 1-3 tagged arrays (deep-cloned into the root's heap from the sending OS thread) or poll recv 1-3 times (in two thirds of those runs the root thread itself stays idle, because a running/collecting root deadlocks against children using its channel: recorded finding). Scheduling points: every instrumented lock acquisition (context, child_threads, global gc, import compiler mutex) with try_lock probing, every k-th CALL debug-hook event inside running bytecode (while the context lock is held), every Pending of a logical thread, every spawn; forced collections in addition. Oracles: each operation's outcome equals the outcome of the same operation executed alone on a fresh VM; every module body ticks at most once; no logical thread panics; no freed object is dereferenced or reachable at quiescence; a state where no logical thread can run is a deadlock (exact under token passing); channel: the multiset of values received concurrently plus the values drained by the host at quiescence equals the multiset of values whose send was acknowledged, the values of one sender arrive in sending order at any one receiver, recv on an empty channel answers Err () (never blocks). Non-trivial = at least 10 context switches and at least two threads importing a common module; distinct = distinct hash of the context switch sequence.",
             real: vec!["Thread::context locking, mark_child_roots, new_thread, Import (compiler mutex, fork/snapshot), salsa query sharing between forks (in-progress query awaited through oneshot), global_inner promotion to the global heap, new_global_thunk, interpreter, Gc of every thread, tokio::sync::oneshot (as a plain data structure)"],
             stubbed: vec!["OS scheduler (token passing: one runnable OS thread at a time, next holder from the tape)", "executor and Spawn implementation (simulator's block_on, one logical thread per spawned task = unbounded pool)", "wakers"],
             not_exercised: vec!["tokio runtime", "interleavings between two scheduling points (instruction-level races)", "locks inside gluon-salsa/parking_lot are not scheduling points: a wait there with the holder parked stalls the run and is reported as a harness stall (exit 2), never as a violation", "changing a module's text concurrently (needs salsa's exclusive revision lock)"],
@@ -245,13 +323,57 @@ impl Engine for C14 {
             }
             threads.push(json!({ "gthread": if t == 0 && rng.chance(1, 2) { "root" } else { "child" }, "ops": ops }));
         }
+        // channel traffic: one channel created by the root thread, its two ends handed to every
+        // logical thread; sends deep-clone the value into the root thread's heap from whichever OS
+        // thread runs the sender
+        let channel = rng.chance(1, 2);
+        if channel {
+            // with the root thread itself running, its collections deadlock against children using
+            // the channel (recorded finding): most channel runs keep the root idle
+            if rng.chance(2, 3) {
+                for th in threads.iter_mut() {
+                    th["gthread"] = json!("child");
+                }
+            }
+            let mut seq = 0u64;
+            for (t, th) in threads.iter_mut().enumerate() {
+                let n = rng.below(3);
+                for _ in 0..n {
+                    let op = if rng.chance(3, 5) {
+                        let vals: Vec<Value> = (0..1 + rng.below(3))
+                            .map(|_| {
+                                seq += 1;
+                                json!([t as u64, seq, rng.below(1000) as u64])
+                            })
+                            .collect();
+                        json!({ "op": "send", "vals": vals })
+                    } else {
+                        json!({ "op": "recv", "n": 1 + rng.below(3) })
+                    };
+                    let ops = th["ops"].as_array_mut().unwrap();
+                    let at = rng.below(ops.len() + 1);
+                    ops.insert(at, op);
+                }
+                // sequence numbers follow the order in which the thread performs its sends
+                let mut n = 0u64;
+                for op in th["ops"].as_array_mut().unwrap().iter_mut() {
+                    if op["op"].as_str() == Some("send") {
+                        for v in op["vals"].as_array_mut().unwrap().iter_mut() {
+                            n += 1;
+                            v[1] = json!(n);
+                        }
+                    }
+                }
+            }
+        }
         // import tasks of one importer evaluate module bodies on the importer's own gluon thread; run
         // in parallel they interleave on that thread's stack (recorded finding): most runs serialise
         // them so that everything else stays visible
         let parallel = rng.chance(1, 4);
         json!({
-            "class": if parallel { "parallel-imports" } else { "serial-imports" },
+            "class": if parallel { "parallel-imports" } else if channel { "serial-imports+channel" } else { "serial-imports" },
             "prelude": false,
+            "channel": channel,
             "modules": modules,
             "threads": threads,
             "gc": GcPolicy::generate(rng).to_json(),
@@ -270,18 +392,20 @@ impl Engine for C14 {
         for (t, th) in threads.iter().enumerate() {
             for (k, op) in th["ops"].as_array().unwrap_or(&empty).iter().enumerate() {
                 let kind = op["op"].as_str().unwrap_or("");
-                if kind == "collect" {
+                if kind == "collect" || kind == "recv" {
                     continue;
                 }
                 let id = format!("{}_{}", t, k);
                 run::set_context(format!("solo reference of operation {}", id));
                 let vm = build_vm(w)?;
+                let solo_chan = if kind == "send" { Some(make_channel(&vm)?) } else { None };
                 if kind == "global" {
                     // a global exists once somebody imported it: load it first
                     let name = op["name"].as_str().unwrap_or("p0");
                     let _ = exec::drive(vm.run_expr_async::<OpaqueValue<RootedThread, Hole>>("pre", &format!("let x = import! {}\n0\n", name)), 10_000_000, |_| {});
                 }
-                let out = perform(&vm, op, &id, false);
+                let out = perform(&vm, op, &id, false, solo_chan.as_ref());
+                drop(solo_chan);
                 expected.insert(id, out);
             }
         }
@@ -290,10 +414,14 @@ impl Engine for C14 {
         // ---- concurrent phase
         gluon_vm::verif::reset_heap_ids();
         let vm = build_vm(w)?;
+        let chan = if w["channel"].as_bool().unwrap_or(false) { Some(Arc::new(make_channel(&vm)?)) } else { None };
         run::with(|s| s.ticks.clear());
         sched::reset(w["switch_rate"].as_u64().unwrap_or(100) as u32);
         let parallel = w["class"].as_str() == Some("parallel-imports");
         sched::INLINE_SPAWN.store(!parallel, std::sync::atomic::Ordering::SeqCst);
+        // a channel owned by the root thread is used by its children while the root itself runs
+        let root_runs = threads.iter().any(|th| th["gthread"].as_str() == Some("root"));
+        sched::ANCESTOR_HANDLES.store(chan.is_some() && root_runs, std::sync::atomic::Ordering::SeqCst);
         let tag = move |v: Violation| -> Violation {
             if parallel {
                 Violation::new("parallel-import-tasks", format!("with the import tasks of one importer running in parallel: [{}] {}", v.oracle, v.detail))
@@ -326,12 +454,14 @@ impl Engine for C14 {
             gthreads.push(gthread.clone());
             let ops: Vec<Value> = th["ops"].as_array().cloned().unwrap_or_default();
             let results = results.clone();
+            let chan = chan.clone();
             sched::spawn(&format!("L{}", t), move || {
                 for (k, op) in ops.iter().enumerate() {
                     let id = format!("{}_{}", t, k);
-                    let out = perform(&gthread, op, &id, true);
+                    let out = perform(&gthread, op, &id, true, chan.as_deref());
                     results.lock().unwrap().insert(id, out);
                 }
+                drop(chan);
                 drop(gthread);
             });
         }
@@ -368,6 +498,85 @@ impl Engine for C14 {
                     "differs-from-solo",
                     format!("operation {} gave `{}` when run concurrently but `{}` when run alone", id, clip(&got), clip(exp)),
                 )));
+            }
+        }
+        if let Some(chan) = &chan {
+            // every sent value is delivered exactly once; values of one sender arrive in sending
+            // order at any one receiver; an empty channel answers `Err ()` instead of blocking
+            let mut sent: Vec<String> = Vec::new();
+            for (t, th) in threads.iter().enumerate() {
+                for (k, op) in th["ops"].as_array().unwrap_or(&empty).iter().enumerate() {
+                    if op["op"].as_str() == Some("send") {
+                        let got = results.get(&format!("{}_{}", t, k)).cloned().unwrap_or_default();
+                        let outs: Vec<&str> = got.trim_start_matches("SEND ").split(" | ").collect();
+                        for (j, v) in op["vals"].as_array().unwrap_or(&empty).iter().enumerate() {
+                            if outs.get(j).map_or(false, |o| o.starts_with("OK <1")) {
+                                let a: Vec<String> = v.as_array().unwrap_or(&empty).iter().map(|x| x.to_string()).collect();
+                                sent.push(format!("[{}]", a.join(", ")));
+                            }
+                        }
+                    }
+                }
+            }
+            let mut received: Vec<(String, String)> = Vec::new();
+            for (id, got) in &results {
+                if let Some(rest) = got.strip_prefix("RECV ") {
+                    for o in rest.split(" | ") {
+                        if let Some(v) = o.trim().strip_prefix("OK <1 ") {
+                            received.push((id.clone(), v.trim_end_matches('>').trim().to_string()));
+                        } else if o.trim() != "OK <0 0>" {
+                            return Err(tag(Violation::new("channel", format!("recv in operation {} answered `{}`", id, clip(o)))));
+                        }
+                    }
+                }
+            }
+            // what is still queued, drained by the host on the root thread
+            loop {
+                let o = call_io(&vm, "drain", RECV_SRC, &chan.receiver, false);
+                if let Some(v) = o.trim().strip_prefix("OK <1 ") {
+                    received.push(("drain".to_string(), v.trim_end_matches('>').trim().to_string()));
+                } else if o.trim() == "OK <0 0>" {
+                    break;
+                } else {
+                    return Err(tag(Violation::new("channel", format!("draining the channel answered `{}`", clip(&o)))));
+                }
+                if received.len() > sent.len() + 4 {
+                    break;
+                }
+            }
+            run::count("channel_sent", sent.len() as u64);
+            run::count("channel_received_concurrently", received.iter().filter(|r| r.0 != "drain").count() as u64);
+            let mut a: Vec<String> = sent.clone();
+            let mut b: Vec<String> = received.iter().map(|r| r.1.replace(' ', "")).collect();
+            for x in a.iter_mut() {
+                *x = x.replace(' ', "");
+            }
+            a.sort();
+            b.sort();
+            if a != b {
+                return Err(tag(Violation::new(
+                    "channel",
+                    format!("values sent {:?} but values received (incl. the final drain) {:?}", a, b),
+                )));
+            }
+            // per (receiving operation or drain, sender): sequence numbers increase
+            let mut last: BTreeMap<(String, String), u64> = BTreeMap::new();
+            for (who, v) in &received {
+                let nums: Vec<u64> = v.trim_matches(|c| c == '[' || c == ']').split(',').filter_map(|x| x.trim().parse().ok()).collect();
+                if nums.len() == 3 {
+                    // operations of one logical thread run in order: use the thread as receiver id
+                    let rid = who.split('_').next().unwrap_or("").to_string();
+                    let key = (rid, nums[0].to_string());
+                    if let Some(prev) = last.get(&key) {
+                        if *prev >= nums[1] {
+                            return Err(tag(Violation::new(
+                                "channel",
+                                format!("receiver {} saw value #{} of sender {} after its value #{}", key.0, nums[1], nums[0], prev),
+                            )));
+                        }
+                    }
+                    last.insert(key, nums[1]);
+                }
             }
         }
         let ticks = run::with(|s| s.ticks.clone());
@@ -418,6 +627,7 @@ impl Engine for C14 {
                 "sites": summary.sites, "results": results,
             }));
         });
+        drop(chan);
         drop(gthreads);
         drop(vm);
         Ok(())
